@@ -146,6 +146,7 @@ class Evaluator:
     ):
         self.repo = repo
         self.extra_types: tuple = ()  # additional abstract value classes a rule brings along
+        self.float_arith = False  # 1-D toy models of positions may use float arithmetic (never geometry of the repo)
         self.binop_hook = None  # optional callable(op, a, b) -> value | NO_MATCH
         self.opaque_arith = False  # if True, arithmetic on symbolic atoms yields an opaque geometry atom
         self.mod_stack: List[Any] = [module] if module is not None else []
@@ -218,9 +219,37 @@ class Evaluator:
             return _copy.copy(args[0]) if name == "copy.copy" else _copy.deepcopy(args[0])
         if name == "collections.deque":
             return deque(self._iterate(args[0], node)) if args else deque()
-        if name in ("warnings.warn", "print"):
+        if name in ("warnings.warn", "print", "warnings.filterwarnings", "warnings.resetwarnings", "warnings.simplefilter", "logging.info", "logging.debug", "logging.warning"):
             return None  # diagnostics only
+        if name == "warnings.catch_warnings":
+            return Sym("context")
+        if name == "typing.cast" and len(args) == 2:
+            return args[1]
+        if name in ("copy.copy", "copy.deepcopy") and isinstance(args[0], Obj):
+            return self._copy_obj(args[0], deep=name.endswith("deepcopy"), memo={})
         raise NotEvaluable(f"external call {name} is outside the index domain")
+
+    def _copy_obj(self, obj: "Obj", deep: bool, memo: Dict[int, Any]):
+        if id(obj) in memo:
+            return memo[id(obj)]
+        new = Obj(obj._name + "'", cls=obj._cls)
+        memo[id(obj)] = new
+        for k, v in obj._attrs.items():
+            new.set(k, self._copy_val(v, memo) if deep else v)
+        return new
+
+    def _copy_val(self, v, memo):
+        if isinstance(v, Obj):
+            return self._copy_obj(v, True, memo)
+        if isinstance(v, list):
+            return [self._copy_val(x, memo) for x in v]
+        if isinstance(v, tuple):
+            return tuple(self._copy_val(x, memo) for x in v)
+        if isinstance(v, dict):
+            return {k: self._copy_val(x, memo) for k, x in v.items()}
+        if isinstance(v, set):
+            return set(v)
+        return v
 
     def instantiate(self, cls, args: List[Any], kwargs: Optional[Dict[str, Any]] = None):
         """Creates a symbolic instance of a repository class by running its __init__ (or the
@@ -378,7 +407,31 @@ class Evaluator:
         elif isinstance(st, ast.Try):
             self._run_try(st)
         elif isinstance(st, ast.With):
-            raise NotEvaluable("with-statement in index code")
+            for item in st.items:
+                try:
+                    v = self.eval(item.context_expr)
+                except NotEvaluable:
+                    v = Sym("context")
+                if item.optional_vars is not None:
+                    self.assign(item.optional_vars, v if v is not None else Sym("context"))
+            self.run_block(st.body)
+        elif isinstance(st, ast.Assert):
+            return
+        elif isinstance(st, ast.Delete):
+            for t in st.targets:
+                if isinstance(t, ast.Name):
+                    self.env.pop(t.id, None)
+                elif isinstance(t, ast.Subscript):
+                    c = self.eval(t.value)
+                    k = self._slice(t.slice)
+                    try:
+                        del c[k]
+                    except Exception as err:  # noqa: BLE001
+                        raise NotEvaluable(f"del {ast.unparse(t)}") from err
+                else:
+                    raise NotEvaluable(f"del {ast.unparse(t)}")
+        elif isinstance(st, (ast.Global, ast.Nonlocal, ast.Import, ast.ImportFrom)):
+            return
         else:
             raise NotEvaluable(f"statement kind {type(st).__name__} not supported: {ast.unparse(st)[:60]}")
 
@@ -569,6 +622,15 @@ class Evaluator:
             return Sym("geom")
         if isinstance(a, bool) or isinstance(b, bool):
             a, b = int(a) if isinstance(a, bool) else a, int(b) if isinstance(b, bool) else b
+        if self.float_arith and isinstance(a, (int, float)) and isinstance(b, (int, float)) and (isinstance(a, float) or isinstance(b, float)):
+            if isinstance(op, ast.Add):
+                return a + b
+            if isinstance(op, ast.Sub):
+                return a - b
+            if isinstance(op, ast.Mult):
+                return a * b
+            if isinstance(op, ast.Div) and b != 0:
+                return a / b
         if isinstance(a, int) and isinstance(b, int):
             if isinstance(op, ast.Add):
                 return a + b
@@ -838,6 +900,8 @@ class Evaluator:
             r = self.call_hook(self, n, name)
             if r is not NO_MATCH:
                 return r
+        if name == "print":
+            return None
         if n.keywords and not (name in ("sorted", "enumerate")) and not isinstance(n.func, ast.Attribute):
             if not (isinstance(n.func, ast.Name) and n.func.id not in self.env and self.repo is not None):
                 raise NotEvaluable(f"keyword arguments in call {ast.unparse(n)[:60]}")
@@ -943,6 +1007,12 @@ class Evaluator:
                 return args[0]
             if f == "str":
                 return str(args[0])
+            if f == "print":
+                return None
+            if f == "cast" and len(args) == 2:
+                return args[1]
+            if f == "bool" and args:
+                return self.truth(args[0], n)
             if f == "isinstance":
                 raise NotEvaluable("isinstance in index code")
             if f == "any":
